@@ -127,7 +127,11 @@ func runC11(t *testing.T, c *c11Case, known func(string) bool) (out c11Outcome) 
 			for {
 				conn, err := srv.Accept()
 				if err != nil {
-					if strings.Contains(err.Error(), "EOF") {
+					// grpc looks at Temporary() first: a temporary error means
+					// "call Accept again" whatever its text is (a failed
+					// re-accept handshake surfaces as a temporary io.EOF)
+					te, isTemp := err.(interface{ Temporary() bool })
+					if !(isTemp && te.Temporary()) && strings.Contains(err.Error(), "EOF") {
 						return
 					}
 					// temporary error: grpc would call Accept again
@@ -209,6 +213,7 @@ func runC11(t *testing.T, c *c11Case, known func(string) bool) (out c11Outcome) 
 			prevCli  <-chan struct{}
 			skipped  int
 			restarts int
+			junked   int
 			xfer     int
 		)
 		alive := func() bool {
@@ -517,6 +522,24 @@ func runC11(t *testing.T, c *c11Case, known func(string) bool) (out c11Outcome) 
 						fail("client Read still blocked 30s after the server closed the connection")
 					}
 				}
+			case "junk":
+				// between two connections the relay delivers one frame that
+				// is no GBN packet towards the server: the next accept
+				// attempt fails on it (a temporary error for the accept
+				// loop), the one after that must work again
+				if alive() {
+					skipped++
+					continue
+				}
+				if cur != nil {
+					closeBoth()
+					out.reconnects++
+				}
+				sidNow, _ := cdS.SID()
+				in := mailbox.GetSID(sidNow, false)
+				if r.Inject(in[:], []byte{0xff, byte(a.Arg)}) {
+					junked++
+				}
 			case "relay_restart":
 				// the relay process is restarted and has forgotten its
 				// mailboxes; the session's current connection is given up by
@@ -598,6 +621,9 @@ func runC11(t *testing.T, c *c11Case, known func(string) bool) (out c11Outcome) 
 		if restarts > 0 {
 			out.labels = append(out.labels, "relay_restarted_with_state_loss")
 		}
+		if junked > 0 {
+			out.labels = append(out.labels, "junk_frame_before_a_reconnect")
+		}
 		if skipped > 0 {
 			out.labels = append(out.labels, "some_actions_skipped")
 		}
@@ -670,7 +696,7 @@ func genC11(t *rapid.T) *c11Case {
 	c.LateKey = c.ClientMax == 2 && rapid.IntRange(0, 5).Draw(t, "late_key") == 0
 	c.Actions = []sessAction{{Op: "connect", Arg: rapid.SampledFrom([]int{0, 0, 1, 500, 3000}).Draw(t, "first_offset")}}
 	ag := rapid.Custom(func(t *rapid.T) sessAction {
-		op := rapid.SampledFrom([]string{"connect", "connect", "transfer", "transfer", "close_client", "close_server", "wait", "intruder", "connect_early", "relay_restart"}).Draw(t, "op")
+		op := rapid.SampledFrom([]string{"connect", "connect", "transfer", "transfer", "close_client", "close_server", "wait", "intruder", "connect_early", "relay_restart", "junk"}).Draw(t, "op")
 		var arg int
 		switch op {
 		case "connect_early":
